@@ -42,6 +42,7 @@ struct TickitWindow {
   unsigned int is_closed          : 1;
   unsigned int steal_input        : 1;
   unsigned int focus_child_notify : 1;
+  unsigned int is_destroying      : 1;
 
   int refcount;
   struct TickitBindings bindings;
@@ -309,6 +310,7 @@ static void init_window(TickitWindow *win, TickitWindow *parent, TickitRect rect
   win->is_closed = false;
   win->steal_input = false;
   win->focus_child_notify = false;
+  win->is_destroying = false;
 
   win->refcount = 1;
   win->bindings = (struct TickitBindings){ NULL };
@@ -465,6 +467,13 @@ void tickit_window_close(TickitWindow *win)
 
 void tickit_window_destroy(TickitWindow *win)
 {
+  /* The DESTROY handlers run while the window is still in the tree, with no
+   * reference left: calls they make on other windows may take and drop
+   * references on this one (flush exposes it, events hold the ancestors of
+   * its children), and may destroy its parent.  None of that may destroy it a
+   * second time */
+  win->is_destroying = true;
+
   tickit_bindings_unbind_and_destroy(&win->bindings, win);
 
   if(win->pen)
@@ -495,7 +504,11 @@ void tickit_window_destroy(TickitWindow *win)
     win->first_child = child->next;
     child->parent = NULL;
     child->next = NULL;
-    tickit_window_unref(child);
+    /* A child whose DESTROY handlers are running right now - one of them
+     * dropped the last reference to this window - has no reference left to
+     * drop; it finishes on its own */
+    if(!child->is_destroying)
+      tickit_window_unref(child);
   }
 
   /* Root cleanup */
@@ -531,7 +544,7 @@ void tickit_window_unref(TickitWindow *win)
     abort();
   }
   win->refcount--;
-  if(!win->refcount)
+  if(!win->refcount && !win->is_destroying)
     tickit_window_destroy(win);
 }
 
